@@ -4,6 +4,7 @@ import copy
 import json
 import os
 import re
+import unicodedata
 
 import gen_jwt
 import vlib
@@ -77,15 +78,114 @@ def cmp_val(a, b, exact):
     return "diff" if "diff" in rs else ("rounded" if "rounded" in rs else "same")
 
 
+def worst(*rs):
+    return "diff" if "diff" in rs else ("rounded" if "rounded" in rs else "same")
+
+
 def cmp_verdict(i, o, exact):
-    """implementation verdict against a model (exact=False) or specification (exact=True) verdict"""
+    """implementation verdict against a model (exact=False) or specification (exact=True) verdict. Subject id and
+    attributes are compared twice: as the strings the two sides print, and octet by octet (`id_hex`, `attrs_hex`: the
+    hexadecimal form of the UTF-8 octets of the id and of every attribute name and string value, computed by the Go
+    harness on the subject the authenticator returned and by the Lean driver on the model's strings), so that no
+    encoder, decoder or normalisation in between can make `admin` and `admin ` look alike. Nothing is stripped,
+    folded or normalised on this side either."""
     if not isinstance(i, dict) or not isinstance(o, dict) or i.get("verdict") != o.get("verdict"):
         return "diff"
     if i.get("verdict") == "accept":
-        if i.get("id") != o.get("id"):
+        if i.get("id") != o.get("id") or type(i.get("id")) is not str:
             return "diff"
-        return cmp_val(i.get("attrs"), o.get("attrs"), exact)
+        if i.get("id_hex") != o.get("id_hex") or i.get("id_hex") != i["id"].encode("utf-8", "surrogatepass").hex():
+            return "diff"
+        return worst(cmp_val(i.get("attrs"), o.get("attrs"), exact),
+                     cmp_val(i.get("attrs_hex"), o.get("attrs_hex"), exact))
     return "same"
+
+
+# ---- ground truth of the recipe: what the subject has to be, read off the claims the case asked the harness to sign
+# (no implementation, no model, no Lean and no Go decoder in between)
+
+PLAIN_PATH = re.compile(r"[A-Za-z0-9_-]+(\.[A-Za-z0-9_-]+)*\Z")
+
+
+def hx(s):
+    return s.encode("utf-8", "surrogatepass").hex()
+
+
+def hexify(v):
+    """the python twin of the harness' c05Hexify"""
+    if isinstance(v, dict):
+        return {hx(k): hexify(x) for k, x in v.items()}
+    if isinstance(v, list):
+        return [hexify(x) for x in v]
+    if isinstance(v, str):
+        return "s:" + hx(v)
+    return v
+
+
+def subst_recipe(v, srv, t0):
+    """placeholders of a token recipe, the way the harness resolves them"""
+    if isinstance(v, dict):
+        if len(v) == 1 and "$now" in v and isinstance(v["$now"], int):
+            return t0 + v["$now"]
+        return {k: subst_recipe(x, srv, t0) for k, x in v.items()}
+    if isinstance(v, list):
+        return [subst_recipe(x, srv, t0) for x in v]
+    if isinstance(v, str) and v.startswith("$SRV"):
+        return srv + v[4:]
+    return v
+
+
+def at_path(v, path):
+    for seg in path.split("."):
+        if isinstance(v, dict) and seg in v:
+            v = v[seg]
+        elif isinstance(v, list) and seg.isdigit() and int(seg) < len(v) and str(int(seg)) == seg:
+            v = v[int(seg)]
+        else:
+            return None, False
+    return v, True
+
+
+def recipe_subject(c, tok, srv, t0):
+    """-> (id claim as str | None, expected subject id | None, expected attributes | None) for a token minted from
+    a `claims` recipe whose payload is not edited afterwards"""
+    if not isinstance(tok, dict) or not isinstance(tok.get("claims"), dict) or tok.get("payload_raw") is not None:
+        return None, None, None
+    if any((m or {}).get("op") == "setclaim" for m in tok.get("mut") or []):
+        return None, None, None
+    sc = (c.get("conf") or {}).get("subject") or {}
+    idp = sc.get("id") or "sub"
+    ap = sc.get("attributes") or "@this"
+    claims = subst_recipe(tok["claims"], srv, t0)
+    claim = want_id = want_attrs = None
+    if PLAIN_PATH.match(idp):
+        v, found = at_path(claims, idp)
+        if found and isinstance(v, str) and v != "":
+            claim = want_id = v
+        elif found and isinstance(v, bool):
+            want_id = "true" if v else "false"
+        elif found and isinstance(v, int):
+            want_id = str(v)
+    if ap == "@this":
+        want_attrs = claims
+    elif PLAIN_PATH.match(ap):
+        v, found = at_path(claims, ap)
+        if found and isinstance(v, dict):
+            want_attrs = v
+    return claim, want_id, want_attrs
+
+
+def check_recipe(c, tok, iv, srv, t0):
+    """an accepted request against the recipe: -> (text of the deviation | None, id claim | None)"""
+    claim, want_id, want_attrs = recipe_subject(c, tok, srv, t0)
+    if want_id is not None and iv.get("id_hex") != hx(want_id):
+        return ("subject id %s (octets %s) is not the value of the signed claim %s (octets %s)"
+                % (json.dumps(iv.get("id")), iv.get("id_hex"), json.dumps(want_id)[:200], hx(want_id)[:400])), claim
+    if want_attrs is not None:
+        if worst(cmp_val(iv.get("attrs_hex"), hexify(want_attrs), True),
+                 cmp_val(iv.get("attrs"), want_attrs, True)) == "diff":
+            return "subject attributes are not, octet for octet, the signed claims", claim
+    return None, claim
 
 
 SKIP = ("ambiguous", "unmodelled")
@@ -136,6 +236,14 @@ def judge(c, i, m):
                 return "spec", f"authenticator creation: implementation {a}, specification {b}"
         if cmp_verdict(iv, mv, False) != "same":
             return "model", "implementation agrees with the specification but not with the model" + where
+        if iv.get("verdict") == "accept":
+            last = k == len(isteps) - 1
+            pre, apre = c.get("pre") or [], i.get("abs_pre") or []
+            tok = c.get("token") if last else ((pre[k] or {}).get("token") if k < len(pre) else None)
+            a = i.get("abs") if last else (apre[k] if k < len(apre) else None)
+            text, _ = check_recipe(c, tok, iv, (i.get("info") or {}).get("srv", "$SRV"), (a or {}).get("now", 0))
+            if text:
+                return "spec", text + where
     exp = c.get("expect")
     if exp:
         # with earlier requests the specification admits the key sets served so far; the ground truth is then
@@ -284,6 +392,8 @@ def run(R):
     requests = 0
     retries = 0
     nontriv = set()
+    ident = collections.Counter()
+    by_subject = {}     # octets of a produced subject id -> the different string claims it was produced from
     bad = []
     samples, sampled = [], set()
     for c, i, m in zip(cases, impl, model):
@@ -319,6 +429,22 @@ def run(R):
         dims["rule_level_config"] += 1 if c.get("rule") else 0
         dims["cache_disabled"] += 1 if ((c.get("rule") or {}).get("cache_ttl") or conf.get("cache_ttl")) == "0s" else 0
         dims["non_ascii"] += 1 if any(ord(ch) > 127 for ch in json.dumps(gen_jwt.slim(c), ensure_ascii=False)) else 0
+        if i["res"].get("verdict") == "accept" and st not in BAD:
+            claim, want_id, want_attrs = recipe_subject(c, c.get("token"), info.get("srv", "$SRV"),
+                                                        (i.get("abs") or {}).get("now", 0))
+            ident["accepted_with_recipe_id"] += 1 if want_id is not None else 0
+            ident["accepted_with_recipe_attributes"] += 1 if want_attrs is not None else 0
+            if claim is not None:
+                ident["accepted_string_id_claims"] += 1
+                ident["with_leading_or_trailing_white_space"] += 1 if claim != claim.strip() else 0
+                ident["white_space_only"] += 1 if claim.strip() == "" else 0
+                ident["non_ascii"] += 1 if any(ord(ch) > 127 for ch in claim) else 0
+                ident["not_nfc_or_not_nfkc"] += 1 if (unicodedata.normalize("NFC", claim) != claim or
+                                                      unicodedata.normalize("NFKC", claim) != claim) else 0
+                ident["changed_by_case_folding"] += 1 if claim.casefold() != claim else 0
+                ident["longer_than_1000"] += 1 if len(claim) > 1000 else 0
+                ident["id_path_" + (((c.get("conf") or {}).get("subject") or {}).get("id") or "sub")] += 1
+                by_subject.setdefault(i["res"].get("id_hex"), set()).add(claim)
         a = (i.get("abs") or {})
         if a.get("wf"):
             algs[a.get("alg")] += 1
@@ -351,6 +477,12 @@ def run(R):
         "cases_with_generator_ground_truth": dict(truth),
         "header_algorithms_of_parsable_tokens": dict(algs), "accepted_by_algorithm": dict(accepted_by_alg),
         "judgements": dict(status), "clock_second_retries": retries,
+        "identity": dict(ident, distinct_string_id_claims=len({x for v in by_subject.values() for x in v}),
+                         distinct_subject_ids=len(by_subject),
+                         rule="accepted requests whose token was minted from a claims recipe: the octets of the "
+                              "subject id (hex, computed in Go on the returned subject) equal the UTF-8 octets of the "
+                              "string the recipe put at the configured id path; attributes likewise; different "
+                              "claims never share a subject id"),
         "generated_facts": facts, "samples": samples, "exhaustive": False,
     })
     R.assumptions += [
@@ -364,6 +496,11 @@ def run(R):
         "HTTP cache of the metadata endpoint is not varied (the metadata document is the same for all requests of a case)",
         "numeric claims are exact decimals in the model; Go parses them as float64 (dates with more than 15 "
         "significant digits next to a range boundary are not generated); leeways are multiples of 1 ms",
+        "subject id and attribute strings are compared as octets: hex computed by the Go harness on the subject the "
+        "authenticator returned, by the Lean driver on the model's strings and by this module on the claims recipe "
+        "(python str -> UTF-8, no strip / casefold / unicodedata on any compared value); payloads are valid UTF-8 "
+        "(JSON escapes of lone surrogates denote U+FFFD on both sides); id claims that are fractional numbers, "
+        "arrays or objects are outside the model (gjson prints them in its own way) and skipped as unmodelled",
         "known finding C05-attrs-float64: integral attribute numbers beyond 2^53 arrive rounded; such cases are "
         "counted as known, the implementation still has to agree with the (rounding) model",
     ]
@@ -389,6 +526,11 @@ def run(R):
         if len(R.violations) >= 4:
             break
     R.coverage["disagreements_checked"] = len(bad)
+    for idh, claims in sorted(by_subject.items()):
+        if len(claims) > 1 and len(R.violations) < 4:
+            R.violation("different subject id claims yield the same subject id %s: %s"
+                        % (idh[:200], ", ".join(json.dumps(x)[:80] for x in sorted(claims)[:4])),
+                        {"subject_id_hex": idh, "claims": sorted(claims)[:8]}, no_input=True)
     if tie_error:
         R.violation("the algorithm lists could not be obtained from the linked code (broken tie): " + tie_error,
                     {"extractor": tie_error}, no_input=True)
